@@ -155,7 +155,8 @@ def run_case(acc, subj, pname, lab, cmode, costname, w, fitmode):
     if trivial:
         viol("no_rejection_without_classes", "fit succeeded without any class information")
         return
-    Q = X if not subj.kernel else np.vstack([X, [M.FAR[X.shape[1]]]])
+    # kernel classifiers: a far point (kernel mass underflows to exactly 0) and a mid-far point (mass positive but far below machine epsilon)
+    Q = X if not subj.kernel else np.vstack([X, [M.FAR[X.shape[1]]], [M.MIDFAR[X.shape[1]]]])
     classes_ = [c.item() if hasattr(c, "item") else c for c in clf.classes_]
     exp_classes = sorted(classes) if classes is not None else present
     if [float(c) for c in classes_] != [float(c) for c in exp_classes]:
